@@ -48,7 +48,10 @@ RULE = ("8-bit types: every value x every base 2..36 x buffer lengths {0, digits
         "limits, limits/base +-1, stride + seeded random (thorough: every value in base 10, one of 2/16/36 and base 2 + v mod 35); 32/64-bit: the same boundary tables + seeded "
         "random; to_string for every instantiated capacity around the digit count; parser inputs from the grammar "
         "ws* sign? prefix? digits tail with digits rendered from the boundary tables (random case, leading zeros, one "
-        "extra digit, limit+-1), lone signs, empty strings and characters adjacent to the digit ranges; "
+        "extra digit, limit+-1), lone signs, empty strings and characters adjacent to the digit ranges, embedded NUL, runs of "
+        "25-70 leading zeros, 40-100 digit runs, the high-bit aliases of digits / letters / signs / white space / x; the calls "
+        "without the defaulted arguments; etl::idiv on limits x every sign combination, 0 and -1; bases outside 2..36 "
+        "(0, 1, 37.., negative, >= 256) for the model tie only; "
         "non-trivial = distinct case line whose impl leg is not a bare error (ok / a parsed value / a written buffer)")
 
 TRUSTED_BASE = ["reference leg: libstdc++ 12 std::to_chars/std::from_chars/std::to_string/std::sto*, glibc 2.36 strto*",
